@@ -8,8 +8,14 @@
        give the same blocks (so "the reference's output" is well defined).
      - its forkless cause is FcSpec.fc_spec (composes with C05), its decisions are exactly the rule-level
        statement (C10_decide_iff).
-   NOT proved: C10_full (model of the implementation = reference), i.e. [impl_refines_spec] for
-   model/AbftRun.v; it is tested on every generated scenario (implementation-level claim: test only). *)
+   The statement for the model of the implementation (model/Abft.v + model/AbftRun.v = reference) is PROVED
+   further down in this file by worker link (proofs/Link*.v): C10_model_refines_reference(_any_order) for
+   valid single-epoch runs, C10_model_rejects_what_the_reference_rejects for streams with rejected / not
+   offered events, C10_model_refines_reference_epochs (uniform sealing policy) and
+   C10_model_refines_reference_extended (several epochs, arbitrary policy, noise, optional Builds, more
+   observations).  [C10_full] as stated in BftProps (for ALL validator lists) is false for the model
+   (zero-weight / duplicate validators): the proved form is C10_full_for_the_model (side conditions
+   link_side).  The step from the model to the Go code is the hand port + differential testing. *)
 From Coq Require Import NArith List.
 From LV Require Import model.VecIndex lib.WSumBft spec.ElectionSpec proofs.BftCore proofs.BftElection
   proofs.BftMono proofs.BftGraph proofs.BftMain proofs.BftRun proofs.BftFcSpec proofs.BftAccept proofs.BftProps.
@@ -98,9 +104,9 @@ Theorem C10_fc_is_graph_fc :
     fc_spec (map snd vals) (quorum_of (map snd vals)) (length vals) (E_of Dr) (nd_id a) (nd_id b).
 Proof. exact fcn_is_fc_spec. Qed.
 
-(* ---- full statement for a model `run` of the implementation: NOT proved (it is the refinement
-        obligation impl_refines_spec for model/AbftRun.v, the L1 invariant of DESIGN 5 C10); it is what the
-        correspondence tests on every generated scenario ---- *)
+(* ---- full statement for a model `run` of the implementation, without side conditions: as stated it is FALSE
+        for model/AbftRun.v (validator lists with zero weights or duplicate ids); the proved form with the
+        side conditions link_side is C10_full_for_the_model below (worker link), its extensions follow it ---- *)
 Definition C10_full : impl_model -> Prop := BftProps.C10_full.
 
 (* non-vacuity: a generated DAG (4 validators, 48 events, one forking validator) is a valid run,
